@@ -1,6 +1,7 @@
 #!/bin/bash
 # Runs the pinned baseline (guard OFF) and compares with BASELINE.json's stable_pass list.
-cd /repo || exit 2
+REPO=${VERIF_REPO:-/repo}
+cd $REPO || exit 2
 OUT=$(mktemp /tmp/junit.XXXXXX.xml)
 unset SPYNE_VERIF
 /venv/bin/python -m pytest -ra -q -p no:cacheprovider --timeout=900 --continue-on-collection-errors --junitxml=$OUT >/dev/null 2>&1
@@ -29,5 +30,5 @@ sys.exit(1 if missing else 0)
 PY
 rc=$?
 rm -f $OUT
-git -C /repo status --short | head
+git -C $REPO status --short | head
 exit $rc
